@@ -23,6 +23,8 @@ type c07Case struct {
 	Threads int     `json:"threads"`
 	// spelling of --measure for an additional run of the binary ("" = none): the command line accepts any letter case
 	CLIMeasure string `json:"cli_measure,omitempty"`
+	// snp only: a --max-dist beyond every possible distance (0 = none given); the table must be the same as without a limit
+	HugeMaxDist float64 `json:"huge_max_dist,omitempty"`
 }
 
 func fmtDist(measure string, d float64) string {
@@ -35,12 +37,16 @@ func fmtDist(measure string, d float64) string {
 // runClosestTable returns dist[q][t] as printed strings, using -n <#targets> --table.
 var lastClosestTableText string // raw text of the last in-process table run (shards run their cases one after another)
 
-func runClosestTable(queries, targets []FaRec, ql, tl Layout, measure string, threads int) (map[string]map[string]string, error) {
+func runClosestTable(queries, targets []FaRec, ql, tl Layout, measure string, threads int, maxdist ...float64) (map[string]map[string]string, error) {
+	md := -1.0
+	if len(maxdist) > 0 && maxdist[0] > 0 {
+		md = maxdist[0]
+	}
 	var out bytes.Buffer
 	defer func() { lastClosestTableText = out.String() }()
 	qt, tt := renderFasta(queries, ql), renderFasta(targets, tl)
 	if err := mustRun("closest.ClosestN(table)", func() error {
-		return closest.ClosestN(len(targets), -1.0, strings.NewReader(qt), strings.NewReader(tt), measure, &out, true, threads)
+		return closest.ClosestN(len(targets), md, strings.NewReader(qt), strings.NewReader(tt), measure, &out, true, threads)
 	}); err != nil {
 		return nil, err
 	}
@@ -69,10 +75,11 @@ func runClosestTable(queries, targets []FaRec, ql, tl Layout, measure string, th
 }
 
 func checkC07(c c07Case, o *Obs) error {
-	tab, err := runClosestTable(c.Queries, c.Targets, c.QLay, c.TLay, c.Measure, c.Threads)
+	tab, err := runClosestTable(c.Queries, c.Targets, c.QLay, c.TLay, c.Measure, c.Threads, c.HugeMaxDist)
 	if err != nil {
 		return err
 	}
+	o.LabelIf(c.HugeMaxDist > 0, "max-dist-beyond-every-distance")
 	libText := lastClosestTableText
 	if c.CLIMeasure != "" && gofastaBin() != "" {
 		// the same table through the command line, --measure spelled in the drawn letter case; compared with the library
@@ -383,7 +390,10 @@ func genC07(t *rapid.T) c07Case {
 		c.TLay.Width = rapid.SampledFrom([]int{0, 60, 64, 70, 80, 64}).Draw(t, "wideWrap")
 	}
 	shareNames(t, c.Queries, c.Targets)
-	if rapid.IntRange(0, 19).Draw(t, "cli") == 0 && w <= 20000 {
+	if c.Measure == "snp" && rapid.IntRange(0, 5).Draw(t, "hugeMaxDist") == 0 {
+		c.HugeMaxDist = rapid.SampledFrom([]float64{1e9, 1e19, 1e300}).Draw(t, "hugeMaxDistValue")
+	}
+	if c.HugeMaxDist == 0 && rapid.IntRange(0, 19).Draw(t, "cli") == 0 && w <= 20000 {
 		c.CLIMeasure = rapid.SampledFrom([]string{c.Measure, strings.ToUpper(c.Measure), strings.ToUpper(c.Measure[:1]) + c.Measure[1:]}).Draw(t, "cliMeasure")
 	}
 	return c
